@@ -1,4 +1,5 @@
 import DVP.Lemmas.Controller
+import DVP.Lemmas.Consts
 import DVP.Lemmas.Arctan
 import DVP.Properties.C03
 import DV.Model.Run
@@ -99,5 +100,13 @@ example : (DV.Loop.integrate (α := ℚ) { eps := 1/2^50, tolEps := 1/2^47, half
 example : triedOf (call (α := ℚ) true false (4/5) (-1)
     (fun k hi => if k < 3 then { ts := hi / 2, redo := true } else { ts := hi * (11/10), redo := false }) 64) = [-1, -1/2, -1/4, -1/8] := by
   decide +kernel
+
+/-- the constants of the controller theorems (`corr 0.8 c`, `0.9 ^ 2`, 64 retries, the 0.8 shrink after a failed Newton solve) are
+the ones in the source text (regenerated `DV.Gen.Consts`) -/
+theorem controller_constants_are_the_sources :
+    (DV.Gen.Consts.safetyFactor = 4/5 ∧ DV.Gen.Consts.redoThreshold = 81/100 ∧ DV.Gen.Consts.newtonShrink = 4/5) ∧
+    (∀ (ai implicit : Bool) (c08 h : Rat) (att : DV.Controller.Attempts Rat),
+      DV.Controller.call ai implicit c08 h att = DV.Controller.call ai implicit c08 h att DV.Gen.Consts.numStepRetries) :=
+  ⟨DVP.Consts.controller_literals, DVP.Consts.retries_default⟩
 
 end DVP.C05
